@@ -62,4 +62,58 @@ def mergeTries (step : Bool) (blockSize : Nat) (ts : List Node) : Option (List N
   | _ =>
     (buildAll (writeBlocks blockSize (pending.flatMap (fun t => prefixIter step t [])))).map (fun r => big ++ r)
 
+/-! ### like dispatch (index/kv_store.go `indexKVStore.FindValuesByLike`) -/
+
+/-- `'*'` -/
+def star : Nat := 42
+
+/-- what the `switch` of `FindValuesByLike` decides to do with a like pattern -/
+inductive LikePlan where
+  | nothing                       -- like == ""
+  | all                           -- like == "*": every value of the bucket (empty prefix, HasPrefix(k, nil))
+  | withPrefix (p : Key)          -- "p*": prefix iteration from p, bytes.HasPrefix(key, p)
+  | withSuffix (s : Key)          -- "*s": all keys, bytes.HasSuffix(key, s)
+  | containing (m : Key)          -- "*m*": all keys, bytes.Contains(key, m)
+  | exact (k : Key)               -- no wildcard at either end: findValue (GetValue)
+  deriving Repr, DecidableEq
+
+def likePlan (like : Key) : LikePlan :=
+  let hasPrefixStar := like.head? == some star
+  let hasSuffixStar := like.getLast? == some star
+  if like.isEmpty then .nothing
+  else if like == [star] then .all
+  else if !hasPrefixStar && hasSuffixStar then .withPrefix like.dropLast
+  else if hasPrefixStar && !hasSuffixStar then .withSuffix like.tail
+  else if hasPrefixStar && hasSuffixStar then .containing like.tail.dropLast
+  else .exact like
+
+/-- `bytes.HasSuffix` -/
+def hasSuffix (s k : Key) : Bool := hasPrefix s.reverse k.reverse
+
+/-- `bytes.Contains` -/
+def contains (m k : Key) : Bool := (List.range (k.length + 1)).any (fun i => hasPrefix m (k.drop i))
+
+/-- the values `FindValuesByLike(bucketID, like)` collects from the flushed bucket, in trie order -/
+def bucketLike (eon step : Bool) (ts : List Node) (like : Key) : List Nat :=
+  match likePlan like with
+  | .nothing => []
+  | .all => ((bucketPrefix step ts []).filter (fun kv => hasPrefix [] kv.1)).map (·.2)
+  | .withPrefix p => ((bucketPrefix step ts p).filter (fun kv => hasPrefix p kv.1)).map (·.2)
+  | .withSuffix s => ((bucketPrefix step ts []).filter (fun kv => hasSuffix s kv.1)).map (·.2)
+  | .containing m => ((bucketPrefix step ts []).filter (fun kv => contains m kv.1)).map (·.2)
+  | .exact k =>
+    match bucketGet eon ts k with
+    | some v => [v]
+    | none => []
+
+/-- the meaning of a like pattern on one key -/
+def likeMatches (like key : Key) : Bool :=
+  match likePlan like with
+  | .nothing => false
+  | .all => true
+  | .withPrefix p => hasPrefix p key
+  | .withSuffix s => hasSuffix s key
+  | .containing m => contains m key
+  | .exact k => k == key
+
 end LinVerif.TrieBucket
